@@ -3,7 +3,7 @@
 Three analyses share one program model (function table, import map, call resolution, call graph):
 
   1. may-mutate-a-parameter (frame / `modifies` clauses): conservative, interprocedural, flow-insensitive (one exception:
-     an unconditional top-level rebinding `p = <expr>` of a parameter name, see FnInfo.rebind_line), field-sensitive.
+     a top-level statement rebinding a parameter name on every path through it, see FnInfo.rebind_line / stmt_rebinds), field-sensitive.
      Abstract values (AV) are trees: `refs` = set of (root, access path) the value may denote, `fields` = known contents of a
      (fresh) object by attribute name ('*' = container element, '?' = unknown field), `funcs` = function / class references the
      value may be (this is how registry dispatch is resolved from algorithm_manager.py's own registration code), `classes` =
@@ -227,16 +227,32 @@ class FnInfo:
         self.locals = set(self.all_params); self.globals_decl = set(); self.is_gen = False
         self.body = node.body
         self.stmts = []          # own statements (nested defs excluded)
-        # the one flow-sensitive rule: an UNCONDITIONAL top-level rebinding `p = <expr>` of a parameter name ends the
-        # parameter's scope: statements after it (source order; top level cannot jump backwards) see only assigned values
+        # the one flow-sensitive rule: a top-level statement that rebinds a parameter name on EVERY path through it (a plain
+        # `p = <expr>`, or an if/elif/else all of whose branches rebind p or leave the function) ends the parameter's scope:
+        # statements after it (source order; the top level cannot jump backwards) see only the assigned values.  Nothing is
+        # assumed about those values: a shallow copy still carries refs to the parameter's elements, `p = p` still is p, and
+        # every use up to the END of the rebinding statement (its right-hand sides, earlier mutations) still sees p itself.
         self.rebind_line = {}
         if kind != 'module':
             for s in node.body:
-                if isinstance(s, ast.Assign):
-                    for t in s.targets:
-                        if isinstance(t, ast.Name) and t.id in self.all_params and t.id not in self.rebind_line: self.rebind_line[t.id] = s.end_lineno
+                for p in self.all_params:
+                    if p not in self.rebind_line and stmt_rebinds(s, p): self.rebind_line[p] = s.end_lineno
     @property
     def name(self): return f'{self.rel}:{self.qual}'
+
+def stmt_rebinds(s, name):
+    """statement s assigns `name` (as a plain Name target) on every path that falls through it"""
+    if isinstance(s, ast.Assign): return any(isinstance(t, ast.Name) and t.id == name for t in s.targets)
+    if isinstance(s, ast.AnnAssign): return s.value is not None and isinstance(s.target, ast.Name) and s.target.id == name
+    if isinstance(s, ast.If): return bool(s.orelse) and block_rebinds(s.body, name) and block_rebinds(s.orelse, name)
+    if isinstance(s, (ast.With, ast.AsyncWith)): return block_rebinds(s.body, name)
+    return False
+def block_rebinds(stmts, name):
+    """every path through the block rebinds `name` or leaves the function (return / raise)"""
+    for s in stmts:
+        if stmt_rebinds(s, name): return True
+        if isinstance(s, (ast.Return, ast.Raise)): return True
+    return False
 
 class ClsInfo:
     def __init__(self, rel, qual, node):
@@ -276,6 +292,8 @@ class Program:
             else:
                 with open(os.path.join(pkg, rel)) as f: src = f.read()
             m = _parse(rel, src); self.mods[rel] = m
+        for rel, src in sorted(overrides.items()):          # override-only entries are additional (synthetic) modules
+            if rel not in self.mods: self.mods[rel] = _parse(rel, src)
         for rel, m in self.mods.items(): self._index(m)
         self.methods_by_name = collections.defaultdict(list)
         for c in self.classes.values():
